@@ -94,6 +94,7 @@ class View:
                     'pwm_in': rec['pwm_in'], 'exc': rec['exc'],
                     'rule_calls_from': rec.get('rule_calls_from'),
                     'T_presented': rec.get('T_presented'),
+                    'dump': rec['dump'],
                 }
                 prev_solver = rec['solver_id']
                 cur['segments'].append(seg)
